@@ -6,20 +6,23 @@ ROOT = os.path.dirname(os.path.dirname(os.path.abspath(__file__)))
 
 CMD = "cd /verif && PYTHONHASHSEED=0 OPEN_PECTUS_VERIF=1 /venv/bin/python -m mc check {id} --tier {tier}"
 
-# id -> (level, technique, text, note, design_ref)
+# Every check module carries its own META = dict(technique=, text=, note=[, design_ref=]); LEVEL is the evidence level.
 CHECKS: dict[str, tuple[str, str, str, str, str]] = {}
 
 
-def reg(id, level, technique, text, note, ref=None):
-    CHECKS[id] = (level, technique, text, note, ref or f"DESIGN.md §2 {id}")
+def _scan():
+    import importlib
+    d = os.path.join(ROOT, "mc", "checks")
+    for fn in sorted(os.listdir(d)):
+        if not (fn.startswith("c") and fn.endswith(".py") and fn[1:3].isdigit()):
+            continue
+        mod = importlib.import_module("mc.checks." + fn[:-3])
+        meta = mod.META
+        CHECKS[mod.ID] = (mod.LEVEL, meta["technique"], meta["text"], meta["note"],
+                          meta.get("design_ref", f"DESIGN.md §2 {mod.ID}"))
 
 
-reg("C24", "fault_enumeration",
-    "explicit-state BFS over fault histories on the real ErrorRecoveryDecorator",
-    "Every history of read/write successes and failures, timeouts and reconnect outcomes up to the depth bound is "
-    "applied to the real decorator over a scripted fake; after every transition the fake's write log and memory are "
-    "compared with the commanded values. Exhaustive within the bound, which is what the property's quantifier asks for.",
-    "Fake hardware fails whole calls (no torn batches); timeouts scaled to 10 s / 100 s; values are fresh increasing floats.")
+_scan()
 
 ALL_IDS = [f"C{i:02d}" for i in range(1, 42)]
 
